@@ -19,13 +19,13 @@ CHECKS = {
          "The offset function of a zone is piecewise constant with exactly these breakpoints, so the probe set holds a representative of every piece and both sides of every breakpoint at nanosecond granularity, for all installed zones (894 distinct files incl. posix/ and right/), synthetic zic-compiled zones (slim and fat), bundled zones, and a product alphabet of POSIX TZ strings."),
  "C04": E("E1", "exhaustive enumeration of every gap/fold window boundary (to the second and nanosecond) of every transition of every zone; classification defined from the reference model by counting pre-images; all four disambiguation strategies and five entry points compared",
          "Every civil-time window created by every transition (recorded and rule-generated) of every zone is probed at start-1s,start-1ns,start,start+1ns,middle,end-1ns,end,end+1ns,end+1s and at the DateTime limits; the expected class is the number of instants whose local reading is that civil time according to R-tz."),
- "C05": E("E1", "complete Cartesian enumeration of typed boundary pools over a hand-written catalogue of fallible public operations, run in two build modes (release; release+debug-assertions+overflow-checks) with per-entry outcome digests compared",
+ "C05": E("E1", "complete Cartesian enumeration of typed boundary pools over a catalogue of 405 public operations (fallible, saturating, wrapping, operators, conversions; completeness against a mechanical scan of the sources is reported), every bundled zone at the limits, run in two build modes (release; release+debug-assertions+overflow-checks) with per-entry outcome digests compared",
          "Every catalogued Result-returning operation is called with every tuple of its boundary pools; no panic in either build, every Ok value inside its documented range, and identical outcome streams in both builds.",
-         "The catalogue is written by hand against the pinned API (uncatalogued public `-> Result` functions are listed in the evidence). " + TRUST),
+         "The catalogue is written against the pinned API; a source scan lists every Result/Option/saturating/wrapping/operator/From item as catalogued, covered by another entry or excluded by name (documented panics). " + TRUST),
  "C06": E("E1", "bounded-exhaustive lockstep enumeration: zones x start instants around every transition x span/duration pools x operations, against R-cal civil addition + R-tz compatible resolution + exact i128 instant arithmetic",
          "Zoned arithmetic is compared with the documented algorithm computed independently (civil add with clamping, compatible resolution by pre-image counting, exact elapsed-time add); start_of_day is compared with the first instant of the civil day found by scanning the model's pieces."),
  "C07": E("E1", "bounded-exhaustive enumeration of ordered pairs (boundary pools, all month ends of two leap cycles, 21x21 neighbourhoods of every transition) x every permitted largest unit; metamorphic + exact oracles (a+s==b, sign, no unit above largest, overshoot-balance, since=-until, exact ns distance)",
-         "For every pair and largest unit the returned span is checked for reversibility through jiff's own addition (pinned by C06/C08), sign consistency, balance by the overshoot test, and exact nanosecond distance for absolute differences; both build modes."),
+         "For every pair and largest unit the returned span is checked for reversibility through jiff's own addition AND through the reference model's addition (R-cal / R-tz), against an independently computed expected span for largest year/month, for sign consistency, balance by the overshoot test, exact nanosecond distance, all argument forms, documented refusals, cross-zone differences and 28 hand-built extreme zones; both build modes."),
  "C08": E("E1", "bounded-exhaustive lockstep enumeration: (date pool + all month ends of leap cycles) x ~2,500-10,000 spans (every unit at every boundary value, all 2-unit mixes, 64-bit thresholds) and signed/unsigned durations x checked/saturating/wrapping/operators/series; R-cal + i128 oracle",
          "The documented calendar rules are transcribed independently (months first with clamping, then days on the epoch-day count, time units carried in 24-hour days) and compared on the complete product, including exactly when an addition is an error and exact modulo-24h wrapping."),
  "C09": E("E1", "exhaustive / bounded-exhaustive print->parse enumeration: all 7.3M dates, every second x all sub-second precisions, timestamps and zoned values around every transition of every named zone (both sides of folds, sub-minute LMT periods), all 187,199 display offsets, all whole-minute fixed zones, printer option product; independent RFC 3339/9557 reader",
@@ -34,27 +34,27 @@ CHECKS = {
          "The rounding-mode table is transcribed independently on i128 and compared for every mode x increment x tie/near-tie/limit value, including year 0 and negative years, range errors, and Zoned rounding against R-tz day bounds and offset-preserving re-resolution."),
  "C11": E("E1", "bounded-exhaustive enumeration of spans x references (none, 24h marker, civil dates/datetimes at month ends and limits, zoned around gaps/folds) x all smallest<=largest unit pairs x increments x 9 modes; metamorphic exact-rational oracle through r+span",
          "Rounded/balanced spans are judged by where r+rounded lies relative to r+span and its two reachable neighbours using exact rationals and the transcribed mode table; totals against exact rationals within 2 ulp; compare against ordering of r+a, r+b.",
-         "The oracle uses jiff's own `r + span` (pinned independently by C06/C08) as a building block. " + TRUST),
+         "Every `r + span` is computed by jiff and by the reference model and reconciled (a disagreement is reported under its own signature); neighbours are anchored at jiff's result plus a balance bound. " + TRUST),
  "C12": E("E1", "complete Cartesian enumeration of boundary pools: all ordered pairs of (secs,nanos) values incl. i64::MIN/MAX for add/sub/cmp, x factor pool for mul/div, unit constructors/views, float boundary values; Span unit limits +-1, all sign patterns and setter orders; exact i128 / 256-bit oracle; two build modes",
          "SignedDuration arithmetic is compared with exact arithmetic on a signed 128-bit nanosecond count (floats with exact dyadic expansions), overflow verdicts must be exact, panicking functions must panic exactly when the exact result is unrepresentable in both builds; Span limits, sign invariant and fieldwise semantics are enumerated over all orders."),
- "C13": E("E2", "explicit-state breadth-first search (stateright) over operation histories: states (instant, zone), ~45 actions each executing the real jiff operation, invariant evaluated on every produced Zoned before canonicalisation, depth bound 3/5",
+ "C13": E("E2", "explicit-state breadth-first search (stateright) over operation histories: states (instant, zone, depth), 78 expanding actions and 592 probe actions (every public producer of a Zoned: constructors, arithmetic with all operand types, navigation, rounding, the with() option product, zone changes, Temporal/strptime/RFC 2822 parsing with all conflict options) each executing the real jiff operation; invariant (offset, model-recomputed civil datetime and 29 accessors, zone, Eq/Ord/Hash against neighbours, clone) evaluated on every produced Zoned before canonicalisation; depth 3 (quick), wide/deep4/deep7-core runs (thorough), run to exhaustion",
          "All Zoned values reachable by any sequence of the action alphabet up to the depth bound from transition-biased initial states are generated by the real operations; offset/civil consistency with the zone, instant-only equality/ordering/hash and instant preservation on zone change are checked on every one."),
- "C14": E("E1", "exhaustive enumeration: following()/preceding() from every probe instant (first items) and to exhaustion from the range limits, for every zone, against the reference breakpoint list with omission/spurious/order/info/direct-lookup checks",
+ "C14": E("E1", "exhaustive enumeration: following()/preceding() from every probe instant (first items) and to exhaustion from the range limits, for every zone, against the reference breakpoint list with omission/spurious/order/info/direct-lookup checks; thorough walks every rule year to 9999 once per (origin, footer) class (states with equal footers have equal futures in the rule-generated part) and the recorded part, hand-over and rule-year windows of every zone",
          "Every yielded transition is matched against the model's list of info-changing breakpoints (recorded no-ops allowed), omissions are detected by walking both lists, and direct lookups just before/at each item are compared, across the recorded/rule-generated boundary."),
- "C15": E("E1", "complete product of friendly printer options (27,648 quick / 138,240 thorough configurations + ISO variants) x span and duration boundary pools; exact i128 lossless/lossy oracles",
-         "Every printed text must parse; lossless configurations must round-trip unit for unit (or total for sub-second folding), lossy ones within one unit of the last printed digit, computed exactly."),
+ "C15": E("E1", "complete product of friendly printer options (82,944 quick / 411,264 thorough configurations + 184,320 zero-unit configurations + ISO variants) x span and duration boundary pools (889 / 238 values); an independent reader of both grammars (never calls jiff) gives the exact i128 value of every printed text; lossless/lossy oracles; documented text shape of every option",
+         "Every printed text must parse, and both the parser's value and the original are compared with the independent reading of the text; lossless configurations must round-trip unit for unit (or total for sub-second folding), lossy ones within one unit of the last printed digit, computed exactly."),
  "C16": E("E1", "exhaustive enumeration of every date of years 0..=9999 (and negative-year pools), every second of a day, transitions of representative zones, all fixed offsets x all specifiers / flags / widths; independent strftime interpreter validated against glibc strftime in the same run within the documented common domain; round trips and contradiction rejection",
          "Each specifier is compared with an independent definition on R-cal facts (bound to glibc where conventions coincide); determinate formats round-trip on all dates; wrong weekdays/contradicting fields must be rejected; RFC 2822 print/parse on every day x offsets."),
- "C17": E("E1", "exhaustive short-string enumeration (all strings up to length 5/6 over per-grammar alphabets for 18 parser entry points) + all 1- and 2-edit mutations of seed corpora + digit-run / 1 MB blow-ups with time and allocation bounds + all format strings of <=3 directives + byte/field/structured mutations of TZif and concatenated data, in isolated worker processes",
+ "C17": E("E1", "exhaustive short-string enumeration (all strings up to length 4-6 over per-grammar alphabets for 26 parser entry points incl. FromStr impls, option products and relaxed modes) + all tails behind 111 valid prefixes + all 1- and 2-edit mutations of seed corpora + every digit field at 84 boundary values + exact repeat/nesting counts (1..=40, around 2^6..2^16) + digit-run / 1 MB blow-ups with time and allocation bounds + strptime/strftime with formats drawn from directives x flags x widths and all raw strings of <=3 bytes + byte/field/structured mutations of TZif and concatenated data, in isolated worker processes, in both build modes in both tiers",
          "Every input terminates with Ok or Err without panic within linear time/allocation bounds; every Ok value is range-checked and re-printed/re-parsed; every accepted zone answers a lookup battery without panicking.",
          "`All byte strings` is covered as all short strings plus all <=2-edit neighbours of valid strings; proportional work is decided up to the stated watchdog/allocation bounds. " + TRUST),
- "C18": E("E1", "exhaustive configuration product: every zone through {raw bytes, zoneinfo dir, concatenated file, bundled db, static include!/get! macros} x {tz-fat on, off} (two builds of the same dumper) x {slim, fat zic output}; canonical answer streams compared line by line and by digest across builds; all case variants of names; POSIX print->parse",
-         "The same data must give identical answer streams (offset info, civil classification, transitions, printed forms) through every back-end and feature configuration; slim and fat compilations of the same rules must agree wherever zic's own outputs describe the same zone; name lookup is checked for every name in 4-4096 case variants."),
- "C19": E("E2+E3", "sequential: every event history up to depth 4/5 over a 21-event alphabet executed from scratch on the real public API with a harness-owned clock (no state merging), property-level admissibility monitor; concurrent: loom exhaustive exploration (preemption-bounded DPOR) of the real, unmodified zoneinfo and concatenated database sources compiled against loom via a std shim",
-         "All 194,481 (quick) / 4,084,101 (thorough) histories of get/reset/write/touch/remove/advance are executed and every answer must be a state the name's data had on disk within the last TTL or since the last reset; all interleavings of 2-3 threads up to the preemption bound over 9 bodies x 2 back-ends are explored by loom, which also detects deadlocks.",
+ "C18": E("E1", "exhaustive configuration product: every zone through {raw bytes, zoneinfo dir, concatenated file in a plain and an adversarial layout, bundled db, global db, static include!/get! macros} x {tz-fat on, off} (two builds of the same dumper) x {slim, fat zic output}; canonical answer streams compared line by line and by digest across builds; all case variants of names; POSIX print->parse",
+         "The same data must give identical answer streams (offset info, civil classification, transitions, printed forms) through every back-end and feature configuration; slim and fat compilations of the same rules must agree wherever zic's own outputs describe the same zone; name lookup is checked warm and cold for every name in 4-4096 case variants and for all 9,120 short queries against a 154-name neighbour database; TimeZone == between runtime routes; POSIX printed forms are re-read by an independent reader."),
+ "C19": E("E2+E3", "sequential: every event history up to depth 4/5 over a 22-event alphabet (incl. replacement by a file with an OLDER modification time) executed from scratch on the real public API with a harness-owned clock (no state merging), property-level admissibility monitor; concurrent: loom exhaustive exploration (preemption-bounded DPOR) of the real, unmodified zoneinfo and concatenated database sources compiled against loom via a std shim",
+         "All 22^4 = 234,256 (quick) / 22^5 = 5,153,632 (thorough) histories of get/reset/write/touch/remove/advance are executed and every answer must be a state the name's data had on disk within the last TTL or since the last reset; all interleavings of 2-3 threads up to the preemption bound over 10 bodies x 2 back-ends are explored by loom, which also detects deadlocks.",
          "The std shim replaces std::sync::{Arc,RwLock} by loom's in the unmodified sources; file-system and clock effects are driven deterministically by the harness; the global tz::db() singleton and TZDIR discovery are not explored. " + TRUST),
- "C20": E("E2+E3", "all programs over {new, clone, move, drop, eq, query, wrap} on a pool of 3 handle slots up to depth 6/8 executed from scratch on real handles with a counting allocator (no state merging); all 187,199 fixed offsets; baton-scheduled enumeration of all orders of handle operations of 2-3 threads; replay under Miri and ASan",
-         "Every bounded program is run on real TimeZone values; after every step the set of live heap groups must equal the reference model's, queries must answer correctly, equality must be reflexive/symmetric/clone-stable; memory safety is decided by replaying the program set under Miri and AddressSanitizer.",
+ "C20": E("E2+E3", "all programs over {new, clone, move, drop, eq, query, wrap} on a pool of 3 handle slots up to depth 6/8 executed from scratch on real handles with a counting allocator (no state merging); all 187,199 fixed offsets; baton-scheduled enumeration of all orders of handle operations of 2-3 threads (95,000 / 1.36 M schedules); database-cache handles, 43 constructor paths, equality matrix over 36 handles, unwinding with live handles; replay under ASan+LSan; Miri on free-running (unserialised) threads in both tiers and on depth-3 programs in thorough; ThreadSanitizer on the free-running section in thorough",
+         "Every bounded program is run on real TimeZone values; after every step the set of live heap groups must equal the reference model's, queries must answer correctly, equality must be reflexive/symmetric/clone-stable; memory safety is decided by the counting allocator (consulted before every read) and by replaying the program set under AddressSanitizer/LeakSanitizer and Miri; data races in reference counts by Miri/TSan on free-running threads.",
          "Memory orderings inside std's Arc are trusted; 32-bit pointer layouts are not exercised. " + TRUST),
 }
 NOT_YET = "check not built yet (construction in progress; see DESIGN.md section 3)"
